@@ -459,3 +459,49 @@ def feature_pairs(name, programs, workdir, other):
                 res.viol.append(tuple(fl))
         os.remove(f[4])
     return res
+
+
+# ------------------------------------------------------------------------------------------------
+# design-level model checking (no implementation involved) and program generation from the state graph
+
+def mc_run(spec, cfg_text, workdir, tag, workers=8, timeout=3000, xmx="6g", want_progs=False):
+    """runs TLC on spec/<spec>.tla with the given cfg text; returns dict(states, distinct, ok, progs, wall, out_tail)"""
+    os.makedirs(workdir, exist_ok=True)
+    cfg = os.path.join(workdir, "%s-%s.cfg" % (spec, tag))
+    with open(cfg, "w") as f:
+        f.write(cfg_text)
+    md = os.path.join(workdir, "md-mc-" + tag)
+    tmp = os.path.join(workdir, "tmp-mc-" + tag)
+    shutil.rmtree(md, ignore_errors=True)
+    os.makedirs(tmp, exist_ok=True)
+    env = dict(os.environ)
+    env["JAVA_TOOL_OPTIONS"] = "-Xss64m -Djava.io.tmpdir=%s" % tmp
+    cmd = ["java", "-XX:+UseParallelGC", "-XX:ParallelGCThreads=4", "-Xmx" + xmx, "-cp", TLC_CP, "tlc2.TLC", "-workers", str(workers), "-metadir", md,
+           "-cleanup", "-noGenerateSpecTE", "-config", cfg, os.path.join(SPEC, spec + ".tla")]
+    t0 = time.time()
+    try:
+        p = subprocess.run(cmd, cwd=SPEC, env=env, stdout=subprocess.PIPE, stderr=subprocess.STDOUT, text=True, timeout=timeout)
+    except subprocess.TimeoutExpired:
+        raise ToolError("TLC timed out on %s" % spec)
+    finally:
+        shutil.rmtree(tmp, ignore_errors=True)
+        shutil.rmtree(md, ignore_errors=True)
+    out = p.stdout
+    ok = "Model checking completed. No error has been found." in out
+    states = distinct = 0
+    m = re.search(r"(\d+) states generated, (\d+) distinct states found", out)
+    if m:
+        states, distinct = int(m.group(1)), int(m.group(2))
+    progs = []
+    if want_progs:
+        for ln in out.splitlines():
+            if ln.startswith('<<"PROG", "'):
+                body = ln[len('<<"PROG", "'):-3]
+                try:
+                    progs.append(json.loads(body.replace('\\"', '"').replace("\\\\", "\\")))
+                except Exception:
+                    pass
+    depth = re.search(r"depth of the complete state graph search is (\d+)", out)
+    tail = "\n".join(l for l in out.splitlines() if not re.match(r"^(Parsing|Semantic|Linting|Picked up|<<)", l))[-2500:]
+    return dict(spec=spec, ok=ok, states=states, distinct=distinct, depth=int(depth.group(1)) if depth else 0, progs=progs,
+                wall=round(time.time() - t0, 1), out_tail=tail)
